@@ -322,6 +322,47 @@ theorem C04_groups_spec (i2f : Int → Nat) (op : Agg) (m : Nat) (base : Int) (p
   rw [hleaves] at hg
   exact ⟨out, ho, hg, hrows⟩
 
+/-- The array path for a NULLABLE integer input (AggregateNullable, Exists, NonzeroIndices, CompactNullable, FuseNulls)
+    yields `xgroupN`: NULL inputs are ignored, a group without any input is NULL (in-band i64::MAX). -/
+theorem C04_array_partition_nullable (op : Agg) (m : Nat) (rows : List (Nat × Option Int))
+    (h : ∀ p ∈ rows, p.1 ≤ m) (hv : ∀ p ∈ rows, ∀ v, p.2 = some v → inI64 v) :
+    ∃ keys vals, arrayPartitionNullable (toOp op) m rows = some (keys, vals) ∧
+      (⟨[keys.map Int.ofNat], vals⟩ : Part) = encPart (xgroupN op m rows) :=
+  arrayPartitionNullable_eq op m rows h hv
+
+example : arrayPartitionNullable .max 2 [(2, some 5), (0, none), (2, some 9)] = some ([0, 2], [I64_MAX, 9]) := by
+  decide
+
+/-- … and the top-level statement with NULLable inputs: any partitioning, any merge tree, NULL inputs ignored. -/
+theorem C04_groups_nullable_partial (op : Agg) (m : Nat) (ps : List (List (Nat × Option Int))) (t : Tree)
+    (hk : ∀ r ∈ ps, ∀ p ∈ r, p.1 ≤ m) (hl : ∀ i ∈ t.leaves, i < ps.length)
+    (hr : NodesInRng op (ps.map (xgroupN op m)) t) :
+    evalTree op (ps.map fun r => encPart (xgroupN op m r)) t =
+      .ok (encPart (xgroupN op m ((t.leaves.map fun i => ps.getD i []).flatten))) := by
+  have hs : ∀ p ∈ ps.map (xgroupN op m), XSorted p := by
+    intro p hp; simp at hp; obtain ⟨r, _, rfl⟩ := hp; exact xgroupN_sorted op m r
+  have e := evalTree_sim op (ps.map (xgroupN op m)) hs t (by simpa using hl) hr
+  rw [List.map_map] at e
+  rw [show (ps.map fun r => encPart (xgroupN op m r)) = ps.map (encPart ∘ xgroupN op m) from rfl, e,
+    xeval_eq_xunion op _ hs t]
+  congr 2
+  have hget : ∀ i, (ps.map (xgroupN op m)).getD i [] = xgroupN op m (ps.getD i []) := by
+    intro i
+    by_cases hi : i < ps.length
+    · simp [List.getD, hi]
+    · simp [List.getD, hi, xgroupN]
+  rw [show (t.leaves.map fun i => (ps.map (xgroupN op m)).getD i []) =
+        (t.leaves.map fun i => ps.getD i []).map (xgroupN op m) by
+      rw [List.map_map]; apply List.map_congr_left; intro i _; exact hget i]
+  apply xunion_xgroupN
+  intro r hr' p hp
+  simp at hr'
+  obtain ⟨i, _, rfl⟩ := hr'
+  by_cases hi : i < ps.length
+  · simp [hi] at hp
+    exact hk _ (List.getElem_mem hi) p hp
+  · simp [hi] at hp
+
 /-- REFUTED on the same witness (rows of one group split over three partitions; exact total i64::MAX-5). -/
 theorem C04_groups_refuted : ¬ C04_groups_statement := by
   intro h
